@@ -47,13 +47,14 @@ def run_program(files, root, via_graph=False, repeat=0):
             with open(os.path.join(d, n), 'w', encoding='utf-8') as f:
                 f.write(t)
         outcome = None
+        shared = MalCompiler() if (len(files) + len(root)) % 2 == 0 else None
         for attempt in range(1 + max(0, repeat)):
-            # the same path compiled again (a new compiler object each time) must give the same verdict
+            # the same path compiled again (a new compiler object, or the same one) must give the same verdict
             try:
                 if via_graph:
                     LanguageGraph.from_mal_spec(os.path.join(d, root))
                 else:
-                    MalCompiler().compile(os.path.join(d, root))
+                    (shared or MalCompiler()).compile(os.path.join(d, root))
             except RecursionError:
                 now = ('raised', 'RecursionError')
             except Exception as exc:
